@@ -37,6 +37,29 @@ def json_only(x: Any) -> bool:
     return False
 
 
+def edit_rendering(o: Any, depth: int = 0) -> None:
+    """A caller post-processing a rendering in place (adding a hint, a field, dropping an entry)."""
+    if depth > 40:
+        return
+    if type(o) is list:
+        for x in list(o):
+            edit_rendering(x, depth + 1)
+        o.append("<hint added by the caller>")
+    elif isinstance(o, dict):
+        for x in list(o.values()):
+            edit_rendering(x, depth + 1)
+        o["<field added by the caller>"] = ["x"]
+
+
+def has_serializable_err(inv: Any, depth: int = 0) -> bool:
+    from koda_validate.serialization import SerializableErr
+    if type(inv) is not Invalid or depth > 40:
+        return False
+    if isinstance(inv.err_type, SerializableErr):
+        return True
+    return any(has_serializable_err(k, depth + 1) for k in children(inv.err_type))
+
+
 def strip_user(t):
     """Replace user predicates by built-in ones and drop async predicates (outside the claim)."""
     if isinstance(t, tuple):
@@ -264,6 +287,23 @@ def run(tier: str, rng: random.Random, proof_ok: bool) -> dict:
                 lines.append((f"(render_all {coq(inv_t)})", coq(full_tree(ctx, inv, out)), c))
             except HarnessError:
                 pass
+            # the rendering belongs to the caller: editing it in place changes no later rendering
+            # (a SerializableErr hands out the user's own object - that one is the user's to share)
+            try:
+                import copy
+                if has_serializable_err(inv):
+                    raise HarnessError("user-supplied rendering")
+                snap = copy.deepcopy(out)
+                edit_rendering(out)
+                again = to_serializable_errs(inv)
+                if again != snap or not json_only(again):
+                    report("C12:rendering-shared", f"after the caller edited a rendering in place, rendering the same error again gives {again!r}; "
+                                                   f"the first rendering was {snap!r}", c)
+            except HarnessError:
+                pass
+            except Exception as e:  # noqa
+                if c.tag == "builtin":
+                    report("C12:render-raised", f"to_serializable_errs raised {e!r} when asked again after the caller edited the first rendering", c)
         # (b) tagging callback: applied to every direct child, in order, to nothing else
         kids = children(inv.err_type)
         called: List[int] = []
